@@ -24,7 +24,7 @@ RW = {'srt': ('SRTReader', 'SRTWriter'), 'webvtt': ('WebVTTReader', 'WebVTTWrite
       'microdvd': ('MicroDVDReader', 'MicroDVDWriter')}
 
 
-def gen_set(rng, tag, grid, nlang, excl, zero_frame=False):
+def gen_set(rng, tag, grid, nlang, excl, zero_frame=False, frame1_numeric=False):
     spec = {'langs': [], 'styles': None, 'layout': None}
     for li, lang in enumerate(rng.sample(['en-US', 'fr', 'de', 'es'], nlang)):
         n = rng.randrange(1, 6)
@@ -40,10 +40,20 @@ def gen_set(rng, tag, grid, nlang, excl, zero_frame=False):
             clean.append((a, b))
         if zero_frame and li == 0:
             clean = [(0, 0)] + [(a, b) for a, b in clean if a > 0]
+        if frame1_numeric and li == 0:
+            clean = [(40000, 40000)] + [(a, b) for a, b in clean if a > 40000]
         caps = []
         for ci, (a, b) in enumerate(clean):
             nodes, _ = capsets.text_nodes(rng, f'{tag}.{li}.{ci}', nlines=rng.randrange(1, 4), p_meta=0.3,
                                           p_uni=0.15, exclude=excl, empty_lines=rng.choice([0.0, 0.0, 0.3]))
+            if frame1_numeric and li == 0 and ci == 0:
+                nodes = [['t', rng.choice(['24', '29.97', '30', '7', '23.976'])]]
+            elif rng.random() < 0.2:
+                # a balanced span that some formats cannot express (colour / class) or can (italics)
+                style = rng.choice([{'color': 'red'}, {'class': 'hl'}, {'italics': True}])
+                i = rng.randrange(0, len(nodes) + 1)
+                j = rng.randrange(i, len(nodes) + 1)
+                nodes = nodes[:i] + [['s', True, style]] + nodes[i:j] + [['s', False, style]] + nodes[j:]
             caps.append({'start': a, 'end': b, 'nodes': nodes, 'style': None, 'layout': None})
         spec['langs'].append({'lang': lang, 'layout': None, 'captions': caps})
     return spec
@@ -70,6 +80,10 @@ def cases(ctx):
             zero = chain[0] == 'microdvd' and rng.random() < 0.2
             yield {'chain': chain, 'set': gen_set(rng, tag + 'c', 40000 if 'microdvd' in chain else 1000, 1,
                                                     '|' if 'microdvd' in chain else '', zero_frame=zero)}
+        # a cue inside frame 1 whose text is just a number (must stay a cue, whatever header conventions exist)
+        for chain in (['microdvd', 'microdvd'], ['microdvd', 'srt'], ['srt', 'microdvd'], ['dfxp', 'microdvd', 'webvtt']):
+            if rng.random() < 0.3:
+                yield {'chain': chain, 'set': gen_set(rng, tag + 'n', 40000, 1, '|', frame1_numeric=True)}
 
 
 def nontrivial(case):
